@@ -134,6 +134,9 @@ def run(ctx):
            any(o[0] == 'call' and o[1] == 'ProveRequest::new' for o in du.origins(st.args[0], stop_at_calls=False)) and
            du.from_call(st.args[0], 'LightClientProtocol::build_prove_request_content_from_genesis'), at=st.span)
     stale_filter_hashes(ctx)
+    # reviewed reference of the storage functions' durable writes (engine/census.py)
+    from rules import census_fns
+    census_fns.run(ctx, 'C04')
 
 
 def stale_filter_hashes(ctx):
